@@ -159,14 +159,42 @@ pub fn histories(sink: &mut Sink, rng: &mut Rng, thorough: bool, work: &Path) {
     // 1 history out of 7 starts with a SCRIPTED prefix on the focus identifier: add, remove, re-add (no purge in
     // between: the removed entry is still in the file), deprecate, remove
     let scripted = !fill && h % 7 == 2;
-    let n_cmd = if scripted { n_cmd.max(6) } else { n_cmd };
+    let n_cmd = if scripted { n_cmd.max(8) } else { n_cmd };
     if scripted { sink.count("history:scripted-readd-prefix"); }
     for c in 0..n_cmd {
       let before = fs::read(&file).unwrap_or_default();
       let in_script = scripted && c < 5;
-      let kind = if in_script { [0u64, 4, 0, 4, 4][c] } else { rng.below(10) };
+      let kind = if in_script { [0u64, 4, 0, 4, 4][c] } else if scripted && c == 5 { 20 } else if scripted && c == 6 { 21 } else { rng.below(10) };
       let ok;
-      if kind < 4 {
+      if kind == 20 {
+        // an identifier that does not fit 48 bits (2^48 + the id of a MOC of the set, and 2^48 itself): refused, the
+        // file is unchanged — stored truncated it would be a second live occurrence of that id
+        let base = known.iter().rev().map(|e| e.id).next().unwrap_or(focus);
+        let id = (1u64 << 48) + if h % 2 == 0 { base } else { 0 };
+        let e = random_entry(rng, id);
+        let p = dir.join(format!("a{}_wrap.fits", c));
+        e.write_fits(&p, false);
+        let sid = if e.status == 2 { format!("-{}", id) } else { id.to_string() };
+        let r = run("mocset", &["append", file.to_str().unwrap(), &sid, p.to_str().unwrap()], None, &[]);
+        ok = r.ok;
+        hist.push(format!("ap:{}", e.txt()));
+        sink.count("cmd:append-id-beyond-48-bits");
+        if ok { known.push(e); } else if fs::read(&file).unwrap_or_default() != before {
+          sink.impl_failures.push(format!("C14 refused append modified the file: history {}", hist.join("|")));
+        }
+      } else if kind == 21 {
+        // `void` is the end-of-list marker, not a status: refused, file unchanged, no lock left behind
+        let r = run("mocset", &["chgstatus", file.to_str().unwrap(), "void", &focus.to_string()], None, &[]);
+        ok = r.ok;
+        hist.push(format!("cs:0:{}", focus));
+        sink.count("cmd:chgstatus-void");
+        if r.err.contains("panicked at") {
+          sink.impl_failures.push(format!("C14 mocset chgstatus void panicked: history {}: {}", hist.join("|"), r.err.lines().next().unwrap_or("")));
+        }
+        if fs::read(&file).unwrap_or_default() != before {
+          sink.impl_failures.push(format!("C14 refused chgstatus modified the file: history {}", hist.join("|")));
+        }
+      } else if kind < 4 {
         // append (valid or deprecated; ids already present / removed / new)
         let id = if in_script { focus } else if fill && rng.chance(1, 2) { 100 + rng.below(127) } else if rng.chance(3, 5) { focus } else { 1 + rng.below(8) };
         let e = random_entry(rng, id);
@@ -444,6 +472,59 @@ pub fn queries(sink: &mut Sink, rng: &mut Rng, thorough: bool, work: &Path) {
           sink.emit(&format!("mq {} {} {} {}", etxt, included as u8, dep as u8, fmt_ranges(&region)), &ans, true);
         }
       }
+    }
+    let _ = fs::remove_dir_all(&dir);
+  }
+  // ---- the poles: lat = +90 and -90 degrees are positions of the sphere like the others
+  {
+    let dir = work.join("qpoles");
+    fs::create_dir_all(&dir).unwrap();
+    let file = dir.join("set.bin");
+    let half_pi = std::f64::consts::FRAC_PI_2;
+    let unit3 = 1u64 << (2 * (29 - 3));
+    let (cn, cs) = (cdshealpix::nested::hash(3, 0.3, half_pi), cdshealpix::nested::hash(3, 0.3, -half_pi));
+    let entries = vec![
+      Entry { id: 1, status: 3, depth: 3, ranges: vec![cn * unit3..(cn + 1) * unit3] },
+      Entry { id: 2, status: 3, depth: 3, ranges: vec![cs * unit3..(cs + 1) * unit3] },
+    ];
+    let mut list_txt = String::new();
+    for e in &entries {
+      let p = dir.join(format!("p{}.fits", e.id));
+      e.write_fits(&p, false);
+      list_txt.push_str(&format!("{} {}\n", e.id, p.display()));
+    }
+    let lp = dir.join("list.txt");
+    fs::write(&lp, &list_txt).unwrap();
+    let r = run("mocset", &["make", "-l", lp.to_str().unwrap(), file.to_str().unwrap()], None, &[]);
+    if r.ok {
+      let etxt = entries.iter().map(|e| e.txt()).collect::<Vec<_>>().join(";");
+      for (lon_s, lat_s, lat) in [("0.0", "90.0", half_pi), ("123.5", "90", half_pi), ("0.0", "-90.0", -half_pi), ("359.9", "-90", -half_pi)] {
+        let lon: f64 = lon_s.parse::<f64>().unwrap().to_radians();
+        let idx = cdshealpix::nested::hash(29, lon, lat);
+        let r = run("mocset", &["query", file.to_str().unwrap(), "pos", lon_s, lat_s], None, &[]);
+        let mut got: Vec<u64> = r.out.lines().skip(1).filter_map(|l| l.trim().split(',').next().and_then(|x| x.parse().ok())).collect();
+        got.sort_unstable();
+        let ans = if !r.ok { format!("err {}", r.err.lines().next().unwrap_or("")) } else if got.is_empty() { "_".to_string() } else { got.iter().map(|x| x.to_string()).collect::<Vec<_>>().join(",") };
+        sink.count("query:pos-at-a-pole");
+        sink.emit(&format!("mqp {} 0 {}", etxt, idx), &ans, true);
+        let r = run("mocset", &["union", file.to_str().unwrap(), "5", "pos", lon_s, lat_s, "ascii"], None, &[]);
+        let ans = if r.ok { match moc::deser::ascii::from_ascii_ivoa::<u64, Hpx<u64>>(&r.out) {
+          Ok(m) => { use moc::moc::{CellOrCellRangeMOCIntoIterator, CellOrCellRangeMOCIterator, HasMaxDepth}; let d = m.depth_max(); let rr: RangeMOC<u64, Hpx<u64>> = m.into_cellcellrange_moc_iter().ranges().into_range_moc(); format!("{}|{}", d, fmt_ranges(&moc_ranges_u64(&rr))) }
+          Err(e) => format!("unparsable {}", e) } } else { format!("err {}", r.err.lines().next().unwrap_or("")) };
+        sink.count("union:pos-at-a-pole");
+        sink.emit(&format!("mup {} 0 {} 5", etxt, idx), &ans, true);
+        // a small cone centred on the pole
+        let cone: RangeMOC<u64, Hpx<u64>> = RangeMOC::from_cone(lon, lat, (60.0f64 / 3600.0).to_radians(), { let rr = (60.0f64 / 3600.0).to_radians(); (cdshealpix::best_starting_depth(rr) + 2).min(29) }, 2, moc::moc::range::CellSelection::All);
+        let region = moc_ranges_u64(&cone);
+        let r = run("mocset", &["query", file.to_str().unwrap(), "cone", lon_s, lat_s, "60", "-p", "2"], None, &[]);
+        let mut got: Vec<u64> = r.out.lines().skip(1).filter_map(|l| l.trim().split(',').next().and_then(|x| x.parse().ok())).collect();
+        got.sort_unstable();
+        let ans = if !r.ok { format!("err {}", r.err.lines().next().unwrap_or("")) } else if got.is_empty() { "_".to_string() } else { got.iter().map(|x| x.to_string()).collect::<Vec<_>>().join(",") };
+        sink.count("query:cone-at-a-pole");
+        sink.emit(&format!("mq {} 0 0 {}", etxt, fmt_ranges(&region)), &ans, true);
+      }
+    } else {
+      sink.impl_failures.push(format!("C15 mocset make failed on the two polar MOCs: {}", r.err.lines().next().unwrap_or("")));
     }
     let _ = fs::remove_dir_all(&dir);
   }
